@@ -100,6 +100,17 @@ fn main() {
     }
     run::silence_stdout();
 
+    // Workers and replays run with the program's own logger installed at the most verbose level, writing to
+    // /dev/null: in the real binary the arguments of its log statements are only evaluated under -l, and code
+    // that is never executed in the harness cannot be checked. (The CLI runs keep the default: no logger.)
+    if replay.is_some() || part.is_some() {
+        unsafe { std::env::set_var("RUST_LOG", "trace") };
+        if let Err(e) = squitterator::initialize_logger("/dev/null") {
+            eprintln!("machinery: cannot install the logger: {e:?}");
+            std::process::exit(2);
+        }
+    }
+
     if let Some(file) = replay {
         std::process::exit(do_replay(prop, tier, &file));
     }
